@@ -1,11 +1,11 @@
 package graphql
 
 import (
-	"sort"
 	"context"
 	"fmt"
 	"reflect"
 	"regexp"
+	"sort"
 
 	"github.com/graphql-go/graphql/language/ast"
 )
